@@ -84,6 +84,10 @@ func c17Start(root string, which int) {
 	if which == 1 {
 		os.Mkdir(filepath.Join(root, "e"), 0o755)
 		os.WriteFile(filepath.Join(root, "ro"), []byte("readonly"), 0o400)
+		// mode bits the protocol does not carry but the host keeps: set-user-id on a file,
+		// set-group-id and sticky on a directory (new directories below it inherit the former)
+		os.Chmod(filepath.Join(root, "a"), 0o644|os.ModeSetuid)
+		os.Chmod(filepath.Join(root, "d"), 0o755|os.ModeSetgid|os.ModeSticky)
 	}
 	if which == 3 {
 		// served by an ordinary user who owns nothing here: the root and e may be written
@@ -141,7 +145,7 @@ func c17Alphabet(dotu bool) []mop {
 			o.NewName = nn
 			a = append(a, o)
 		}
-		for _, m := range []int{0, 0400, 0777} {
+		for _, m := range []int{0, 0400, 0777, 0644, 0755} { // the last two: the bits a / d have already
 			o := w(t)
 			o.Chmod = m
 			a = append(a, o)
@@ -265,6 +269,9 @@ func c17Snapshot(root string, timed map[string]bool) string {
 		}
 		rel, _ := filepath.Rel(root, p)
 		l := fmt.Sprintf("%s %s %o", rel, fi.Mode().Type(), fi.Mode()&0777)
+		if sp := fi.Mode() & (os.ModeSetuid | os.ModeSetgid | os.ModeSticky); sp != 0 {
+			l += " " + sp.String()
+		}
 		switch {
 		case fi.Mode()&os.ModeSymlink != 0:
 			t, _ := os.Readlink(p)
@@ -572,6 +579,15 @@ func c17Scenarios(tier string) []Scenario {
 		depth = 3
 		starts = []int{0, 1, 2}
 	}
+	if tier == "quick" {
+		// start tree 1 (special mode bits) one step deep
+		for _, dotu := range []bool{false, true} {
+			n := len(c17Alphabet(dotu))
+			for lo := 0; lo < n; lo += 30 {
+				out = append(out, c17Search(1, dotu, lo, lo+30, 1))
+			}
+		}
+	}
 	// start tree 3: the server runs as an ordinary user and the host refuses most of it
 	for _, dotu := range []bool{false, true} {
 		n := len(c17Alphabet(dotu))
@@ -601,7 +617,7 @@ func c17Scenarios(tier string) []Scenario {
 func init() {
 	register(&Property{ID: "C17", Level: "model_checking",
 		Technique: "explicit-state breadth-first search over mutation sequences with a POSIX twin as reference model; every transition executed on the real Ufs (fresh trees, replay of the sequence) and the trees compared",
-		Rule:      "alphabet of ~85 (.u ~100) mutations over the namespace {a, b, d/, d/c, d/dd/, l->a, ld->d/dd}: Tcreate of files (4 perm/mode pairs incl. OTRUNC) on free and occupied names in two directories and in 'ld/..' (through a symbolic link to a directory and back up), directories, symlinks with existing and dangling targets, hard links, Twrite at offsets 0/mid/end/beyond, Topen with OTRUNC, Tremove of file / empty and non-empty directory / symlink / missing, Twstat rename to free/occupied/same names, lengths 0/shorter/equal/longer, modes 0/0400/0777, mtime, and four multi-field wstats; BFS to depth 2 (thorough 3, three start trees) with states deduplicated on a canonical snapshot (names, kinds, permission bits, contents, link targets, hard-link groups, explicitly set mtimes); the same operation is applied with package os to a twin tree. states = distinct tree snapshots, transitions = sequences executed",
+		Rule:      "alphabet of ~85 (.u ~100) mutations over the namespace {a, b, d/, d/c, d/dd/, l->a, ld->d/dd}: Tcreate of files (4 perm/mode pairs incl. OTRUNC) on free and occupied names in two directories and in 'ld/..' (through a symbolic link to a directory and back up), directories, symlinks with existing and dangling targets, hard links, Twrite at offsets 0/mid/end/beyond, Topen with OTRUNC, Tremove of file / empty and non-empty directory / symlink / missing, Twstat rename to free/occupied/same names, lengths 0/shorter/equal/longer, modes 0/0400/0777 and the current ones (0644/0755; start tree 1 has set-user-id, set-group-id and sticky bits on them), mtime, and four multi-field wstats; BFS to depth 2 (thorough 3, three start trees) with states deduplicated on a canonical snapshot (names, kinds, permission bits, contents, link targets, hard-link groups, explicitly set mtimes); the same operation is applied with package os to a twin tree. states = distinct tree snapshots, transitions = sequences executed",
 		Assumptions: []string{"the host file system and package os are the reference", "creating an existing name may be refused or treated like O_CREAT without O_EXCL (either is accepted if the tree matches)", "start tree 3 is served (and its twin changed) with the effective ids of an ordinary user, so that the host refuses things; the other trees run as the sandbox user"},
 		Scenarios:   c17Scenarios, QuickS: 110, ThoroughS: 1500})
 }
